@@ -27,7 +27,7 @@ ANCHORS = [
 NAMED = ["sum", "prod", "any", "all", "max", "min", "mean", "argmax", "argmin"]
 NEEDS_NONEMPTY = {"max", "min", "mean", "argmax", "argmin", "maximum", "minimum"}
 UFUNCS = ["add", "multiply", "logical_and", "logical_or", "logical_xor", "bitwise_and", "bitwise_or", "bitwise_xor", "maximum", "minimum"]
-MODES = ["method", "np", "ufunc.reduce", "axisNone", "keepdims", "np-keepdims", "ufunc-keepdims", "axis1", "np-positional", "axis-npint"]
+MODES = ["method", "np", "ufunc.reduce", "axisNone", "keepdims", "np-keepdims", "ufunc-keepdims", "axis1", "np-positional", "axis-npint", "reduce-kwargs", "explicit-defaults"]
 FLOOR_TAGS = ["recv:" + r for r in c02.RECVS] + ["mode:" + m for m in MODES] + ["f:" + f for f in NAMED + UFUNCS] + ["kind:b", "kind:i", "kind:u", "kind:f", "norows", "allempty", "e-first", "e-last", "e-mid", "e-consec", "e-none", "trailing-run"]
 FLOOR_MONITORS = ["c05:compare", "c05:identity-for-empty-row"]
 N_RANDOM = {"quick": 36000, "thorough": 500000}
@@ -53,7 +53,7 @@ def run(case):
     tags = ["mode:" + mode, "f:" + name, "kind:" + dt.kind, "v:" + case["vclass"], "recv:" + recv] + gen.empty_placement(lens)
     if len(lens) >= 2 and lens[-1] == 0 and lens[-2] == 0:
         tags.append("trailing-run")
-    is_uf = mode.startswith("ufunc")
+    is_uf = mode.startswith("ufunc") or mode == "reduce-kwargs"
     f_np = getattr(np, name)
     per_row = (lambda r: f_np.reduce(r)) if is_uf else (lambda r: f_np(r))
     f_flat = f_np
@@ -84,6 +84,15 @@ def run(case):
         a = attempt(lambda: getattr(ra, name)(axis=np.int64(-1)))
     elif mode == "ufunc.reduce":
         a = attempt(lambda: f_np.reduce(ra, axis=-1))
+    elif mode == "reduce-kwargs":
+        # numpy's documented defaults spelled out must change nothing
+        ident = getattr(f_np, "identity", None)
+        kws = [{"where": True}, {"dtype": None}, {"out": None}, {"keepdims": False}] + ([{"initial": ident}] if ident is not None and dt.kind != "b" else [])
+        kw = kws[len(case["vals"]) % len(kws)]
+        tags.append("kw:" + next(iter(kw)))
+        a = attempt(lambda: f_np.reduce(ra, axis=-1, **kw))
+    elif mode == "explicit-defaults":
+        a = attempt(lambda: getattr(ra, name)(axis=-1, keepdims=False))
     elif mode == "keepdims":
         kd = {0: True, 1: np.True_, 2: 1}[len(case["vals"]) % 3]      # any true value asks for the column form, as in numpy
         a = attempt(lambda: getattr(ra, name)(axis=-1, keepdims=kd))
@@ -159,6 +168,8 @@ def _vals(rng, dtype, n, vclass, name):
             if name in ("argmax", "argmin"):
                 v = [float("inf") if x != x else x for x in v]
             return v
+        if vclass == "decimal" and name in ("max", "min", "argmax", "argmin", "any", "all", "maximum", "minimum"):
+            return gen.values(rng, dtype, n, "decimal").tolist()      # exact (order-independent) reductions only
         return gen.values(rng, dtype, n, "small").tolist()
     if name == "mean" and k == "f":
         vclass = "small"   # float sums depend on the summation order; integer means are judged against the exact rational mean
@@ -168,7 +179,7 @@ def _vals(rng, dtype, n, vclass, name):
 def gen_case(rng, lens, dtype, vclass, mode=None, name=None, recv="fresh"):
     mode = mode or rng.choice(MODES)
     if name is None:
-        if mode.startswith("ufunc"):
+        if mode.startswith("ufunc") or mode == "reduce-kwargs":
             name = rng.choice(UFUNCS)
         elif mode == "axisNone":
             name = rng.choice(["sum", "prod", "any", "all", "max", "min", "mean"])
@@ -206,6 +217,21 @@ def directed():
     for dtype in ["int64", "uint64", "int32"]:
         for mode in ["method", "np", "keepdims", "axisNone"]:
             yield gen_case(rng, [3, 0, 4, 2], dtype, "extreme", mode, "mean")
+    # rectangular contents on receivers built from / converted to a 2-D numpy array; floats of very different magnitude
+    for recv in ("fromnumpy", "tonumpy-called", "fresh", "ufunc"):
+        for lens in ([3, 3, 3], [2, 2], [4, 4, 4, 4], [1, 1, 1]):
+            for name in ("argmax", "argmin", "max", "min"):
+                for mode in ("method", "np", "keepdims"):
+                    for dtype in ("float64", "float32"):
+                        yield gen_case(rng, lens, dtype, "decimal", mode, name, recv)
+    for lens in ([3, 0, 2], [0, 0], [4]):
+        for name in UFUNCS:
+            for k in range(5):
+                c = gen_case(rng, lens, "int64", "small", "reduce-kwargs", name)
+                c["vals"] = c["vals"]
+                yield c
+        for name in NAMED:
+            yield gen_case(rng, lens, "int64", "small", "explicit-defaults", name)
     # wrap-around and non-finite values
     for dtype in ["int8", "uint8", "int16", "int64", "uint64"]:
         for name in ["sum", "prod", "max", "min", "argmax", "argmin"]:
@@ -234,7 +260,7 @@ def sweep(tier):
 def random_case(rng, tier):
     lens, _ = gen.length_vector(rng, tier)
     dtype = rng.choice(gen.DT_ALL)
-    vclass = rng.choice(["small", "small", "extreme", "nonfinite", "sparse", "sparse"])
+    vclass = rng.choice(["small", "small", "extreme", "nonfinite", "sparse", "sparse", "decimal"])
     return gen_case(rng, lens, dtype, vclass, recv=rng.choice(c02.RECVS) if rng.random() < 0.35 else "fresh")
 
 
